@@ -5,6 +5,7 @@ import Ivg.Gen.Tie.GradientFields
 import Ivg.Gen.Tie.RendererFields
 import Ivg.Gen.Tie.MiscFields
 import Ivg.Gen.Tie.LoggerForwards
+import Ivg.Gen.Tie.Code.Draw
 import Ivg.Obligations
 /-!
 # C05 — drawing operations reach the rasteriser as the right segments, affinely mapped
@@ -613,4 +614,25 @@ end Ivg.Props.C05
   Ivg.Gen.Tie.renderer_fields_tie,
   Ivg.Gen.Tie.gradient_fields_tie,
   Ivg.Gen.Tie.viewBox_fields_tie,
-  Ivg.Gen.Tie.logger_forwards_tie, Ivg.Gen.Tie.rasterizer_logger_forwards_tie]
+  Ivg.Gen.Tie.logger_forwards_tie, Ivg.Gen.Tie.rasterizer_logger_forwards_tie,
+  -- regenerated code (translator) = model, for all inputs: render.go drawing methods over an abstract rasteriser with the pen contract
+  Ivg.Gen.Tie.relVec2_code_tie,
+  Ivg.Gen.Tie.implicitSmoothPoint_code_tie,
+  Ivg.Gen.Tie.absLineTo_code_tie,
+  Ivg.Gen.Tie.relLineTo_code_tie,
+  Ivg.Gen.Tie.absHLineTo_code_tie,
+  Ivg.Gen.Tie.relHLineTo_code_tie,
+  Ivg.Gen.Tie.absVLineTo_code_tie,
+  Ivg.Gen.Tie.relVLineTo_code_tie,
+  Ivg.Gen.Tie.closePathAbsMoveTo_code_tie,
+  Ivg.Gen.Tie.closePathRelMoveTo_code_tie,
+  Ivg.Gen.Tie.absQuadTo_code_tie,
+  Ivg.Gen.Tie.relQuadTo_code_tie,
+  Ivg.Gen.Tie.absCubeTo_code_tie,
+  Ivg.Gen.Tie.relCubeTo_code_tie,
+  Ivg.Gen.Tie.absSmoothQuadTo_code_tie,
+  Ivg.Gen.Tie.relSmoothQuadTo_code_tie,
+  Ivg.Gen.Tie.absSmoothCubeTo_code_tie,
+  Ivg.Gen.Tie.relSmoothCubeTo_code_tie,
+  Ivg.Gen.Tie.smoothOK_zero,
+  Ivg.Gen.Tie.smoothOK_step]
